@@ -1,7 +1,8 @@
 (* C10 - Each seat is told exactly what the protocol entitles it to, and nothing else (every schedule).
    Only statements, each closed by [exact]; proofs are in the files imported below. *)
-From BE Require Import Model.Session Model.SessionTie Spec.SessionSpec Proofs.Kahn Proofs.Session Proofs.SessionExamples.
+From BE Require Import Model.Session Model.SessionTie Spec.SessionSpec Proofs.Kahn Proofs.Session Proofs.SessionExamples Proofs.View.
 From Coq Require Import ZArith.
+Local Open Scope string_scope.
 Local Open Scope nat_scope.
 Local Open Scope list_scope.
 (* FULL STATEMENT (not proved in this form): the lines sent on connection p equal view_spec p of Spec/SessionSpec.v for every
@@ -48,6 +49,99 @@ Theorem C10_transcripts_independent_of_timing_partial :
     (exists l'', srun l'' s' = Some s /\ length l' + length l'' = length sched) /\ (sfinal s' -> s' = s).
 Proof. exact every_schedule_reaches_canonical. Qed.
 Print Assumptions C10_transcripts_independent_of_timing_partial.
+
+(* the reference itself says what the property says: start line, header, own hand; then the auction part; then the play part *)
+Theorem C10_view_decomposition :
+  forall number b o p,
+  view_board number b o p = board_prefix number b p ++ auction_part o p ++ play_part b o p.
+Proof. exact view_board_decomp. Qed.
+Print Assumptions C10_view_decomposition.
+
+Theorem C10_board_starts_with_configured_header :
+  forall number b o p,
+  exists rest, view_board number b o p =
+    "Start of board"%string :: board_header number (sb_dealer b) (sb_vul b) :: cards_line (formal_name p) (sb_deal b p) :: rest.
+Proof. exact board_starts_with_header. Qed.
+Print Assumptions C10_board_starts_with_configured_header.
+
+(* over a whole session the only cards lines a seat is sent are its own hand and Dummy (client texts that themselves look like a cards line excluded) *)
+Theorem C10_only_own_cards_and_dummy :
+  forall team ns ew bs p l,
+  (forall b o, In (b, o) bs -> plain_messages o) ->
+  In l (view_spec team ns ew bs p) -> names_cards l ->
+  exists b o, In (b, o) bs /\
+    (l = cards_line (formal_name p) (sb_deal b p) \/
+     (exists decl, cdeclarer (oc_contract o) = Some decl /\ p <> partner decl /\ l = cards_line "Dummy" (sb_deal b (partner decl)))).
+Proof. exact view_spec_cards_lines. Qed.
+Print Assumptions C10_only_own_cards_and_dummy.
+
+Theorem C10_dummy_never_sent_dummy :
+  forall number b o decl h, plain_messages o ->
+  cdeclarer (oc_contract o) = Some decl ->
+  ~ In (cards_line "Dummy" h) (view_board number b o (partner decl)).
+Proof. exact dummy_never_sees_any_dummy_line. Qed.
+Print Assumptions C10_dummy_never_sent_dummy.
+
+Theorem C10_others_sent_dummy_exactly_once :
+  forall number b o decl p, plain_messages o -> cdeclarer (oc_contract o) = Some decl ->
+  p <> partner decl -> oc_plays o <> [] ->
+  count_occ_str (cards_line "Dummy" (sb_deal b (partner decl))) (view_board number b o p) = 1.
+Proof. exact others_see_dummy_exactly_once. Qed.
+Print Assumptions C10_others_sent_dummy_exactly_once.
+
+(* after the relayed opening lead (after its own lead prompt, for the leader) and before anything about the second card *)
+Theorem C10_dummy_shown_right_after_opening_lead :
+  forall number b o decl p a who m c rest,
+  cdeclarer (oc_contract o) = Some decl -> p <> partner decl -> oc_plays o = (a, who, m, c) :: rest ->
+  view_board number b o p =
+    (board_prefix number b p ++ auction_part o p ++ lead_prompt decl p 0 a ++ card_relay p who m) ++
+    cards_line "Dummy" (sb_deal b (partner decl)) ::
+    flat_map (later_item decl p) (combine (seq 1 (length rest)) rest).
+Proof. exact dummy_line_right_after_first_card. Qed.
+Print Assumptions C10_dummy_shown_right_after_opening_lead.
+
+Theorem C10_no_dummy_without_play :
+  forall number b o p l, plain_messages o -> oc_plays o = [] ->
+  In l (view_board number b o p) -> names_cards l -> l = cards_line (formal_name p) (sb_deal b p).
+Proof. exact no_dummy_line_without_play. Qed.
+Print Assumptions C10_no_dummy_without_play.
+
+Theorem C10_calls_relayed_in_order_to_the_others :
+  forall number b o p,
+  view_board number b o p =
+    board_prefix number b p ++
+    map (fun '(who, m, _) => relay_text m who) (filter (fun '(who, _, _) => negb (seat_beq who p)) (oc_calls o)) ++
+    play_part b o p.
+Proof. exact calls_relayed_in_order. Qed.
+Print Assumptions C10_calls_relayed_in_order_to_the_others.
+
+(* to every seat other than the one that spoke for the card (declarer for dummy) *)
+Theorem C10_cards_relayed_in_order_to_the_others :
+  forall b o p decl,
+  cdeclarer (oc_contract o) = Some decl ->
+  (forall a who m c, In (a, who, m, c) (oc_plays o) -> is_table_line b decl m = false) ->
+  filter (fun l => negb (is_table_line b decl l)) (play_part b o p) =
+  map (fun '(_, _, m, _) => m) (filter (fun '(_, who, _, _) => negb (seat_beq who p)) (oc_plays o)).
+Proof. exact cards_relayed_to_others. Qed.
+Print Assumptions C10_cards_relayed_in_order_to_the_others.
+
+Theorem C10_lead_prompt_only_to_the_leader :
+  forall number b o p,
+  In (formal_name p ++ " to lead")%string (view_board number b o p) ->
+  (forall a who m c, In (a, who, m, c) (oc_plays o) -> m <> (formal_name p ++ " to lead")%string) ->
+  (forall who m c, In (who, m, c) (oc_calls o) -> relay_text m who <> (formal_name p ++ " to lead")%string) ->
+  exists decl who m c, cdeclarer (oc_contract o) = Some decl /\ p <> partner decl /\ In (p, who, m, c) (oc_plays o).
+Proof. exact lead_prompt_only_when_leading. Qed.
+Print Assumptions C10_lead_prompt_only_to_the_leader.
+
+Theorem C10_dummy_lead_prompt_only_to_declarer :
+  forall number b o p,
+  In "Dummy to lead"%string (view_board number b o p) ->
+  (forall a who m c, In (a, who, m, c) (oc_plays o) -> m <> "Dummy to lead"%string) ->
+  (forall who m c, In (who, m, c) (oc_calls o) -> relay_text m who <> "Dummy to lead"%string) ->
+  cdeclarer (oc_contract o) = Some p /\ exists who m c, In (partner p, who, m, c) (oc_plays o).
+Proof. exact dummy_lead_prompt_only_for_declarer. Qed.
+Print Assumptions C10_dummy_lead_prompt_only_to_declarer.
 
 (* non-vacuity *)
 Theorem C10_example_transcripts_are_the_reference :
